@@ -239,8 +239,41 @@ func partPath(r *Recorder) string {
 	return p
 }
 
+// the case in flight (for ReportHang)
+var inflight struct {
+	mu   sync.Mutex
+	r    *Recorder
+	test string
+	c    interface{}
+}
+
+// ReportHang is called from a watchdog goroutine when a call into the library has not returned within its
+// budget. The goroutine running the case is stuck inside the library, so the violation is recorded here and
+// the process ends (the remaining cases of this unit are not run).
+func ReportHang(desc string) {
+	inflight.mu.Lock()
+	r, test, c := inflight.r, inflight.test, inflight.c
+	inflight.mu.Unlock()
+	if r == nil {
+		fmt.Println("VERIF-HANG without a case in flight: " + desc)
+		os.Exit(1)
+	}
+	out := Outcome{Label: "hang in library code", Nontrivial: true, Err: fmt.Errorf("a call into the library did not return: %s", desc), Sig: "hang:" + strings.SplitN(desc, " did not return", 2)[0]}
+	msg := r.handle(test, c, out)
+	r.Flush()
+	if msg == "" { // a listed known finding
+		os.Exit(0)
+	}
+	fmt.Println(msg)
+	fmt.Println("--- FAIL: " + test + " (hang)")
+	os.Exit(1)
+}
+
 // Journal notes the case about to be executed, so that a process death can be attributed.
 func (r *Recorder) Journal(test string, c interface{}) {
+	inflight.mu.Lock()
+	inflight.r, inflight.test, inflight.c = r, test, c
+	inflight.mu.Unlock()
 	raw, err := json.Marshal(c)
 	if err != nil {
 		return
@@ -432,6 +465,9 @@ func Drive[C any](t *testing.T, r *Recorder, gen func(*rapid.T) C, run func(C) O
 			t.Fatalf("cannot decode replay case: %v", err)
 		}
 		for i := 0; i < replayTimes(); i++ {
+			inflight.mu.Lock()
+			inflight.r, inflight.test, inflight.c = r, test, c
+			inflight.mu.Unlock()
 			out := safeRun(run, c)
 			if msg := r.handle(test, c, out); msg != "" {
 				fmt.Println(msg)
@@ -463,6 +499,9 @@ func Each[C any](t *testing.T, r *Recorder, cases []C, run func(C) Outcome) {
 			t.Fatalf("cannot decode replay case: %v", err)
 		}
 		for i := 0; i < replayTimes(); i++ {
+			inflight.mu.Lock()
+			inflight.r, inflight.test, inflight.c = r, test, c
+			inflight.mu.Unlock()
 			out := safeRun(run, c)
 			if msg := r.handle(test, c, out); msg != "" {
 				fmt.Println(msg)
